@@ -94,6 +94,8 @@ class Sched:
         self.step_limit = False
         self.step = 0
         self.cache_lock = None
+        self.cache = None
+        self.base_cls = dict
         self.where = [None] * nthreads  # per thread: names of the cacheutils frames on its stack at its pending
         #                                 instruction (innermost first); lets a chooser pre-empt INSIDE a given method
         self.track_stack = False
@@ -167,7 +169,13 @@ class Sched:
         def glob(frame, event, arg):
             co = frame.f_code
             if co.co_filename == self.cu_file:
-                if co.co_name in self.state_funcs and self.cache_lock is not None:
+                slf = frame.f_locals.get('self')
+                if slf is not None and slf is not self.cache and self.cache is not None \
+                        and isinstance(slf, self.base_cls):
+                    return None     # a method of ANOTHER cache (a thread-private copy / update() argument): its
+                    #                 instructions are not pre-emption points of the shared cache's operations
+                if co.co_name in self.state_funcs and self.cache_lock is not None and \
+                        frame.f_locals.get('self') is self.cache:     # helpers of the SHARED cache only
                     if self.cache_lock.owner != tid:
                         self.lockset_violations.append((tid, co.co_name))
                 frame.f_trace_opcodes = True
@@ -193,6 +201,8 @@ def run(cu, programs, choose, make_cache, max_steps=200000, state_funcs=None):
     finally:
         cu.RLock = old_rlock
     s.cache_lock = getattr(cache, '_lock', None)
+    s.cache = cache
+    s.base_cls = getattr(cu, 'LRI', dict)
     results = [[] for _ in range(n)]
     op_log = []   # (tid, op index) in completion order
 
